@@ -42,6 +42,67 @@ CHECKS = {
     "C16": ("proof", "Theorem (SpecShift.v): for SOI-free grammars run commutes with shifting positions, hence "
             "parse(text, k) = shift k (parse(text[k:], 0)) and the prefix is irrelevant; counter-example with SOI. "
             "Check: both statements on the implementation in four modes for every k > 0.", "4.C16", PARSE_TECH),
+    "C01": ("proof", "INTERIM proof content: the observation compared (tree / furthest-failure position) is a function of "
+            "(grammar, rule, input, start) and fuel-independent, and well-formed. The property itself is decided on "
+            "every run by differential execution: IG vs I and OG vs O on G1 (every expression kind in every nesting "
+            "context x start modifier x trivia configuration, all inputs to the bound, several start positions), G2, "
+            "G3, with I and IG each also tied to the extracted reference semantics; generated source must load and "
+            "generate() twice must be byte-identical.", "4.C01",
+            "extracted reference semantics + direct I-vs-IG / O-vs-OG differential over a template-complete space"),
+    "C02": ("proof", "Theorems: unroll is sound by definition of the reference semantics (bounded repetitions are their "
+            "unrolled sequences); skip's side condition. Other passes: decided differentially on every run (O vs I, OG vs "
+            "IG) on grammars built around each rewrite trigger under the default pipeline, each single pass and seeded "
+            "subsets/permutations/repetitions, all modes tied to the reference semantics.", "4.C02",
+            "Coq laws for unroll + optimized-vs-unoptimized differential over pass configurations"),
+    "C08": ("proof", "Theorems: untagged group is identity, failed alternatives and predicates leave no trace. The six "
+            "rewrites at arbitrary sites of the bundled grammars (plus synthetic grammars with tags/stack/atomicity) are "
+            "applied to the text and original vs rewritten compared in four modes on every run.", "4.C08",
+            "Coq laws + rewrite-and-compare on bundled grammars"),
+    "C09": ("proof", "Theorem C09_history_refines: for EVERY history of push/pop/clear/snapshot/restore/drop the "
+            "delta-encoded stack (model of stack.py) has the contents and saved copies of the full-copy reference "
+            "(representation invariant + abstraction function, induction over the history); counter and ParserState "
+            "component-wise. Tie: ALL histories up to length 8 plus long random ones, and ParserState / "
+            "SnapshottingInt histories, implementation vs extracted model vs an independent reference.", "4.C09",
+            "refinement proof over all histories + exhaustive small-scope tie"),
+    "C10": ("proof", "PARTIAL. Accept set and built structure are decided differentially against the reference reader "
+            "(extracted reference semantics running tests/grammars/meta.pest, regenerated into Grammars.v, + denote) on "
+            "generated grammar texts with every syntactic form and layout, bundled grammars, mutations. Proved: the "
+            "reader never reaches an undefined rule, its verdict is fuel-independent, its trees are well-formed.",
+            "4.C10", "reference reader = proved semantics on pest's own meta-grammar; differential"),
+    "C11": ("proof", "PARTIAL. Proved for the reference reader: never abnormal, rejection position inside the text. "
+            "python-pest's front end: exception type, str() and reported line/column on token soups, truncations and "
+            "mutations of valid grammars and edge texts, with and without optimizer, on every run. Termination bound "
+            "(C11_full) not proved; CPython's recursion limit outside the model (converted to a syntax error by a fix).",
+            "4.C11", "totality of the reference reader + fault-input differential"),
+    "C12": ("proof", "Theorems over unbounded N: ranges exact and case-sensitive; the optimizer's merged class accepts "
+            "exactly the union of its parts; ASCII tables in the source (regenerated into Tables.v) equal pest's; ASCII "
+            "case variants. Check: EVERY code point U+0000..U+10FFFF through the real parser in four modes for every "
+            "built-in, boundary ranges, literals and squashed choices vs the extracted model; Unicode properties "
+            "interpreter-vs-generated regex on every code point; every escape form.", "4.C12",
+            "Coq set-level theorems + exhaustive sweep of the finite code space"),
+    "C13": ("proof", "Theorems: failure position is -1 or inside [start_pos, len]; listed names are rules; "
+            "error_context is line_col of the position (C14's theorem). Rendering text itself is tested on every "
+            "rejected input in four modes.", "4.C13", PARSE_TECH),
+    "C14": ("proof", "Theorem C14_line_col: for every text with \\n breaks and EVERY offset 0..len, line_col = (1 + "
+            "breaks before p, 1 + distance from last break); injectivity. Model of splitlines/line_col/line_of/"
+            "Span.lines tied exhaustively: all texts over {a,b,\\n} to length 7, \\r\\n and other breaks, "
+            "non-ASCII samples, all offsets and spans.", "4.C14", "proof by induction over the text + exhaustive tie"),
+    "C15": ("proof", "PARTIAL by nature. Model: a process is a list of parsers each with its own table; history "
+            "independence is a theorem of the model. That the code matches (parse reads only its own table and "
+            "immutable shared data) is monitored: fingerprints of Parser.BUILTIN / default optimizer after every "
+            "operation of seeded histories, observed results vs a fresh interpreter, 8 threads vs sequential. Thread "
+            "scheduling inside one parse() call is outside the model.", "4.C15",
+            "world model theorem + shared-state monitor + history/thread differential"),
+    "C17": ("proof", "PARTIAL. Proved on artefacts regenerated from /repo: JSON grammars reference only defined rules, "
+            "trees well-formed, samples accepted / prefix rejected; the calculator's Pratt table gives canonical unique "
+            "trees (C18 instance). End-to-end: generated RFC 8259 documents and proper prefixes in four modes vs "
+            "json.loads; three calculators vs an evaluator written from the documented table.", "4.C17",
+            "instance theorems + differential against json.loads and an independent evaluator"),
+    "C18": ("proof", "Theorems (PrattProof.v): the tree built is canonical for the declared table, its yield is the "
+            "consumed stream, every canonical tree is rebuilt from its yield (exactness), canonical trees are unique, "
+            "well-formed streams are consumed completely — for all tables and streams. Tie: PrattParser subclass with "
+            "tuple hooks vs the extracted model, and vs an oracle enumerating all trees with the same yield.",
+            "4.C18", "round-trip/uniqueness proof for all tables + enumerated tie"),
 }
 
 NOT_YET = {
